@@ -29,7 +29,7 @@ def run(prop, jobs=16):
             meta = json.load(open(os.path.join(d, 'meta.json')))
         except (OSError, ValueError):
             continue
-        if meta.get('property') == prop and os.path.exists(os.path.join(d, 'patch.diff')):
+        if meta.get('property') == prop and os.path.exists(os.path.join(d, 'patch.diff')) and not meta.get('obsolete'):
             metas.append((d, meta))
     if not metas:
         return out
